@@ -1,41 +1,30 @@
 package main
 
+import "os"
+
 // Delta debugging of a failing single-run case: keep the violation class, drop bytes.
 
-// classOf evaluates the single-run oracles without recording: class key -> detail.
+// classOf: class key -> detail of the single-run violations of a case, computed in a child.
 func (k *collector) classOf(c Case) map[string]string {
-	r := execCase(c)
-	set := map[string]string{}
-	switch r.Verdict {
-	case "panic":
-		set["panic|"+c.Format+"|"+r.Panic.Func+"|"+r.Panic.Kind] = "panic: " + r.Panic.Value
-	case "hang":
-		set["hang|"+c.Format+"|"+hangSub(c)] = "no result within the watchdog"
+	k.probeMu.Lock()
+	defer k.probeMu.Unlock()
+	if k.prober == nil {
+		k.prober = &runner{}
 	}
-	for _, l := range r.Life {
-		set["life|"+c.Format+"|"+subOf(l, ":")] = l
+	s := k.prober.run(job{Kind: jobProbe, C: c})
+	out := map[string]string{}
+	for key, d := range s.Classes {
+		out[key] = d
 	}
-	for _, w := range r.WF {
-		set["wf|"+c.Format+"|"+subOf(w, " in ")] = w
+	for _, v := range s.Viols { // the child died: crash / hang class
+		out[v.Key()] = v.Detail
 	}
-	if c.Sched.FaultAt >= 0 && r.Delivered && r.Verdict == "clean" {
-		set["fault-swallowed|"+c.Format+"|"+c.Sched.Fault] = "reader failed but the decoder ended cleanly"
-	}
-	return set
-}
-
-func subOf(s, sep string) string {
-	for i := 0; i+len(sep) <= len(s); i++ {
-		if s[i:i+len(sep)] == sep {
-			return s[:i]
-		}
-	}
-	return s
+	return out
 }
 
 // shrink minimises c.Input (and simplifies the schedule) while the class key stays present.
 func (k *collector) shrink(v violation, maxRuns int) violation {
-	if v.Kind == "hang" || v.Kind == "crash" || len(v.Case.Input) > 64<<10 {
+	if v.Kind == "hang" || v.Kind == "crash" || len(v.Case.Input) > 64<<10 || os.Getenv("C05X_NOSHRINK") != "" {
 		return v
 	}
 	key := v.Key()
